@@ -16,6 +16,7 @@ Generated modules (data only, no theorems):
 """
 import json
 import os
+import re
 import subprocess
 import sys
 
@@ -1107,7 +1108,8 @@ def parse_text_parser(repo, relpath, name, env):
             "dflt": dflt or "BadType"}
 
 
-INT_WRAPPERS = ["mpt_cint8", "mpt_cint16", "mpt_cint32", "mpt_cint64", "mpt_cuint8", "mpt_cuint16", "mpt_cuint32", "mpt_cuint64"]
+INT_WRAPPERS = ["mpt_cint8", "mpt_cint16", "mpt_cint32", "mpt_cint64", "mpt_cchar", "mpt_cint", "mpt_clong",
+                "mpt_cuint8", "mpt_cuint16", "mpt_cuint32", "mpt_cuint64", "mpt_cuchar", "mpt_cuint", "mpt_culong"]
 
 
 def parse_wrapper(repo, name, env):
@@ -1274,14 +1276,37 @@ def ctype_name(tnode):
     return " ".join(toks).replace(" * *", " **").replace("* *", "**")
 
 
+_SIZEOF_CACHE = {}
+_SIZEOF_REPO = [None]
+PROBE_HEADERS = ["core.h", "types.h", "array.h", "event.h", "object.h", "convert.h", "meta.h", "message.h"]
+
+
+def clang_sizeof(repo, names):
+    """sizeof of C type names as clang-14 computes it for the target: a probe unit that includes the library headers and
+    defines one constant per type is compiled to LLVM IR and the constants are read back (nothing is run)"""
+    names = list(dict.fromkeys(names))
+    todo = [n for n in names if (repo, n) not in _SIZEOF_CACHE]
+    if todo:
+        src = ["#include <stdint.h>", "#include <stddef.h>", "#include <sys/uio.h>"]
+        src += ['#include "%s"' % h for h in PROBE_HEADERS]
+        for k, n in enumerate(todo):
+            src.append("const unsigned long mptprobe_%d = sizeof(%s);" % (k, n))
+        argv = ["clang-14", "-S", "-emit-llvm", "-w", "-std=gnu99", "-DMPT_BASE_VERIF", "-x", "c", "-", "-o", "-"] + includes(repo)
+        r = subprocess.run(argv, input="\n".join(src).encode(), stdout=subprocess.PIPE, stderr=subprocess.PIPE)
+        if r.returncode != 0:
+            fail("clang-14 failed on the sizeof probe:\n%s" % r.stderr.decode(errors="replace")[:2000])
+        found = dict((int(k), int(v)) for k, v in re.findall(r"@mptprobe_(\d+) = [^\n]*constant i64 (\d+)", r.stdout.decode()))
+        for k, n in enumerate(todo):
+            if k not in found:
+                fail("sizeof probe: no constant for " + n)
+            _SIZEOF_CACHE[(repo, n)] = found[k]
+    return {n: _SIZEOF_CACHE[(repo, n)] for n in names}
+
+
 def sizeof_any(tnode, node=None):
-    """LP64 size of arithmetic, pointer and the few record types that occur in sizeof expressions of type_traits.c"""
+    """sizeof of the type of a sizeof expression in type_traits.c, from clang (see clang_sizeof)"""
     q = ctype_name(tnode)
-    if q.endswith("*"):
-        return 8
-    if q in ("struct mpt_type_traits", "struct mpt_named_traits"):
-        return 24       # two pointers + size_t / two pointers + type id; printed by `t abi` of harness/drv_types.c
-    return sizeof(tnode, node)
+    return clang_sizeof(_SIZEOF_REPO[0], [q])[q]
 
 
 def parse_size_table(repo, name, env):
@@ -1456,6 +1481,9 @@ KIND_BY_REF = [("core_types", "core"), ("scalar_types", "scalar"), ("iovec_types
                ("mpt_interface_traits", "interface"), ("dynamic_types", "dynamic"), ("mpt_metatype_traits", "meta")]
 
 
+STATIC_CALLS = {}
+
+
 def parse_traits_dispatch(repo, env):
     """mpt_type_traits: the ordered range tests and what each selects"""
     fn = function_def(repo, TYPES_C, "mpt_type_traits")
@@ -1481,10 +1509,19 @@ def parse_traits_dispatch(repo, env):
             sk = kids(st)
             if not is_ref(sk[0], "type"):
                 fail("mpt_type_traits: switch on something else", st)
+            pending = []
             for it in flatten_switch(sk[1]):
                 if it[0] == "case":
                     v, _ = const_eval(it[1], env)
                     statics.append(v)
+                    pending.append(v)
+                elif it[0] == "stmt" and pending:
+                    calls = [unwrap(kids(n)[0]).get("referencedDecl", {}).get("name") for n in walk(it[1]) if n.get("kind") == "CallExpr"]
+                    if it[1].get("kind") != "ReturnStmt" or len(calls) != 1:
+                        fail("mpt_type_traits: static case does not return one traits call", it[1])
+                    for v in pending:
+                        STATIC_CALLS[v] = calls[0]
+                    pending = []
             out.append(("static", min(statics), max(statics)))
         elif k == "CompoundAssignOperator" and st.get("opcode") == "-=" and refs_var(kids(st)[0], "type"):
             generic_base, _ = const_eval(kids(st)[1], env)
@@ -1497,7 +1534,43 @@ def parse_traits_dispatch(repo, env):
     return out, sorted(statics), generic_base
 
 
+STATIC_TRAITS_FILES = {"mpt_identifier_traits": "mptcore/misc/identifier.c", "mpt_array_traits": "mptcore/array/array_traits.c",
+                       "mpt_meta_reference_traits": "mptcore/meta/meta_reference_traits.c",
+                       "mpt_command_traits": "mptcore/event/command_traits.c"}
+
+
+def parse_static_traits(repo, fname):
+    """`static const struct type_traits traits = { init, fini, sizeof(T) }; return &traits;` ->
+    (C type name, init set, fini set)"""
+    if fname not in STATIC_TRAITS_FILES:
+        fail("mpt_type_traits: unknown traits function " + fname)
+    fn = function_def(repo, STATIC_TRAITS_FILES[fname], fname)
+    vds = [n for n in walk(fn) if n.get("kind") == "VarDecl" and "type_traits" in n.get("type", {}).get("qualType", "")]
+    if len(vds) != 1 or vds[0].get("storageClass") != "static":
+        fail("%s: expected one static traits record" % fname, fn)
+    inits = [c for c in kids(vds[0]) if c.get("kind") == "InitListExpr"]
+    if len(inits) != 1 or len(kids(inits[0])) != 3:
+        fail("%s: traits record is not { init, fini, size }" % fname, vds[0])
+    a, b, c = kids(inits[0])
+    rets = [n for n in walk(fn) if n.get("kind") == "ReturnStmt"]
+    if len(rets) != 1 or not mentions(rets[0], vds[0].get("name")):
+        fail("%s: does not return its traits record" % fname, fn)
+
+    def is_set(e):
+        e = unwrap(e)
+        if e.get("kind") == "DeclRefExpr" and e.get("referencedDecl", {}).get("kind") == "FunctionDecl":
+            return True
+        if e.get("kind") == "IntegerLiteral" and e.get("value") == "0":
+            return False
+        fail("%s: init/fini is neither a function nor 0" % fname, e)
+    e = unwrap(c)
+    if e.get("kind") != "UnaryExprOrTypeTraitExpr" or e.get("name") != "sizeof" or "argType" not in e:
+        fail("%s: size is not sizeof(type)" % fname, e)
+    return ctype_name(e["argType"]), is_set(a), is_set(b)
+
+
 def extract_types(repo):
+    _SIZEOF_REPO[0] = repo
     env = enum_constants(repo, TYPES_C)
     consts = {"TypeInterfaceSize": const_var(repo, "TypeInterfaceSize", env),
               "TypeDynamicSize": const_var(repo, "TypeDynamicSize", env)}
@@ -1697,6 +1770,17 @@ def extract_types(repo):
     data["msg_codes"] = parse_return_switch(repo, "mptcore/message/msgvalfmt.c", "mpt_msgvalfmt_code", "type", menv, -1)
     data["vector_ctype"] = loop_ct
     data["vector_extra"] = extra
+    # the static managed types: the traits record of the function each case returns
+    data["static_traits"] = []
+    for v in data["statics"]:
+        if v not in STATIC_CALLS:
+            fail("mpt_type_traits: no traits function for static id %d" % v)
+        ct, i, f = parse_static_traits(repo, STATIC_CALLS[v])
+        data["static_traits"].append((v, STATIC_CALLS[v], ct, i, f))
+    # sizeof of every C type the tables name, from clang
+    names = [r[1] for r in data["core_sizes"]] + [r[1] for r in data["scalar_sizes"]] + [loop_ct] + [x[1] for x in extra]
+    names += [x[2] for x in data["static_traits"]] + ["void *", "struct mpt_type_traits", "struct iovec"]
+    data["sizeof"] = sorted(clang_sizeof(repo, names).items())
     # consistency of the interface table with its slot index (slot i holds id base + i)
     for i, (nm, idv) in enumerate(data["core_interfaces"]):
         if idv != data["interface_base"] + i:
@@ -1772,6 +1856,11 @@ def emit_typetables(data):
     L.append("/-- `mpt_type_traits`: range tests in program order (kind, lo, hi inclusive) -/")
     L.append("def dispatch : List (String × Nat × Nat) := [%s]" % ", ".join('("%s", %d, %d)' % r for r in data["dispatch"]))
     L.append("def statics : List Nat := [%s]" % ", ".join(str(v) for v in data["statics"]))
+    L.append("/-- the traits record of the function `mpt_type_traits` returns for a static id: (id, function, C type of the size, init set, fini set) -/")
+    L.append("def staticTraits : List (Nat × String × String × Bool × Bool) := [%s]" % ", ".join(
+        '(%d, "%s", "%s", %s, %s)' % (v, fnm, ct, "true" if i else "false", "true" if f else "false") for v, fnm, ct, i, f in data["static_traits"]))
+    L.append("/-- `sizeof` of the C types named in this file, as clang-14 computes it for the target (probe unit compiled to LLVM IR) -/")
+    L.append("def sizeofC : List (String × Nat) := [%s]" % ", ".join('("%s", %d)' % kv for kv in data["sizeof"]))
     L.append("def dispatchGenericBase : Nat := %d" % data["dispatch_generic_base"])
     L.append("def interfaceLookup : Nat × Nat := (%d, %d)" % data["interface_lookup"])
     L.append("def metaLookup : Nat × Nat := (%d, %d)" % data["meta_lookup"])
